@@ -147,23 +147,23 @@ func (l *hookLogger) call() {
 	}
 }
 
-func (l *hookLogger) EnableJSONOutput(bool)                       {}
-func (l *hookLogger) SetAppID(string)                             {}
-func (l *hookLogger) SetOutputLevel(logger.LogLevel)              {}
-func (l *hookLogger) SetOutput(io.Writer)                         {}
-func (l *hookLogger) IsOutputLevelEnabled(logger.LogLevel) bool   { return true }
-func (l *hookLogger) WithLogType(string) logger.Logger            { return l }
-func (l *hookLogger) WithFields(map[string]any) logger.Logger     { return l }
-func (l *hookLogger) Info(...interface{})                         { l.call() }
-func (l *hookLogger) Infof(string, ...interface{})                { l.call() }
-func (l *hookLogger) Debug(...interface{})                        { l.call() }
-func (l *hookLogger) Debugf(string, ...interface{})               { l.call() }
-func (l *hookLogger) Warn(...interface{})                         { l.call() }
-func (l *hookLogger) Warnf(string, ...interface{})                { l.call() }
-func (l *hookLogger) Error(...interface{})                        { l.call() }
-func (l *hookLogger) Errorf(string, ...interface{})               { l.call() }
-func (l *hookLogger) Fatal(...interface{})                        { l.call() }
-func (l *hookLogger) Fatalf(string, ...interface{})               { l.call() }
+func (l *hookLogger) EnableJSONOutput(bool)                     {}
+func (l *hookLogger) SetAppID(string)                           {}
+func (l *hookLogger) SetOutputLevel(logger.LogLevel)            {}
+func (l *hookLogger) SetOutput(io.Writer)                       {}
+func (l *hookLogger) IsOutputLevelEnabled(logger.LogLevel) bool { return true }
+func (l *hookLogger) WithLogType(string) logger.Logger          { return l }
+func (l *hookLogger) WithFields(map[string]any) logger.Logger   { return l }
+func (l *hookLogger) Info(...interface{})                       { l.call() }
+func (l *hookLogger) Infof(string, ...interface{})              { l.call() }
+func (l *hookLogger) Debug(...interface{})                      { l.call() }
+func (l *hookLogger) Debugf(string, ...interface{})             { l.call() }
+func (l *hookLogger) Warn(...interface{})                       { l.call() }
+func (l *hookLogger) Warnf(string, ...interface{})              { l.call() }
+func (l *hookLogger) Error(...interface{})                      { l.call() }
+func (l *hookLogger) Errorf(string, ...interface{})             { l.call() }
+func (l *hookLogger) Fatal(...interface{})                      { l.call() }
+func (l *hookLogger) Fatalf(string, ...interface{})             { l.call() }
 
 // ---------------------------------------------------------------------------------------
 // trust anchors: a version counter; the PEM bundle names the version
@@ -314,7 +314,10 @@ func (c *recClock) nowNs() int64 { return c.FakeClock.Now().UnixNano() }
 // ---------------------------------------------------------------------------------------
 // goroutine states
 
-var reGoHeader = regexp.MustCompile(`^goroutine (\d+) \[([^\],]*)`)
+var (
+	reGoHeader  = regexp.MustCompile(`^goroutine (\d+) \[([^\],]*)`)
+	reGoHeaders = regexp.MustCompile(`(?m)^goroutine (\d+) \[([^\],]*)`)
+)
 
 func curGoid() int64 {
 	var buf [64]byte
@@ -328,6 +331,7 @@ func curGoid() int64 {
 }
 
 var stackBuf = make([]byte, 1<<20)
+var lastStates map[int64]string
 
 // goroutineStates returns the scheduler state of every live goroutine ("chan receive",
 // "select", "sync.RWMutex.Lock", "running", "runnable", ...).
@@ -336,13 +340,9 @@ func goroutineStates() map[int64]string {
 		n := runtime.Stack(stackBuf, true)
 		if n < len(stackBuf) {
 			out := map[int64]string{}
-			for _, blk := range strings.Split(string(stackBuf[:n]), "\n\n") {
-				m := reGoHeader.FindStringSubmatch(blk)
-				if m == nil {
-					continue
-				}
-				id, _ := strconv.ParseInt(m[1], 10, 64)
-				out[id] = m[2]
+			for _, m := range reGoHeaders.FindAllSubmatch(stackBuf[:n], -1) {
+				id, _ := strconv.ParseInt(string(m[1]), 10, 64)
+				out[id] = string(m[2])
 			}
 			return out
 		}
@@ -351,10 +351,13 @@ func goroutineStates() map[int64]string {
 }
 
 // blockedState: the goroutine cannot run until another goroutine acts on a channel, a mutex
-// or a context it waits for.
+// or a context it waits for. The bare "semacquire" state is deliberately NOT in the list: a
+// goroutine whose allocation starts a GC cycle parks on the runtime's world semaphore with that
+// reason while this probe itself holds it (runtime.Stack stops the world) and continues right
+// after; sync.Mutex / sync.RWMutex waits have their own reasons since Go 1.20.
 func blockedState(st string) bool {
-	for _, p := range []string{"chan receive", "chan send", "select", "semacquire", "sync.Mutex.Lock",
-		"sync.RWMutex.RLock", "sync.RWMutex.Lock", "sync.Cond.Wait", "sync.WaitGroup.Wait"} {
+	for _, p := range []string{"chan receive", "chan send", "select", "sync.Mutex.Lock",
+		"sync.RWMutex.RLock", "sync.RWMutex.Lock", "sync.Cond.Wait"} {
 		if strings.HasPrefix(st, p) {
 			return true
 		}
@@ -394,7 +397,7 @@ func (s *threadSet) quiescent(deadline time.Duration) bool {
 	end := time.Now().Add(deadline)
 	for spin := 0; ; spin++ {
 		ready := true
-		ids := make([]int64, 0, len(s.ts))
+		live := make([]*thread, 0, len(s.ts))
 		for _, t := range s.ts {
 			t.mu.Lock()
 			id, fin := t.goid, t.fin
@@ -406,17 +409,26 @@ func (s *threadSet) quiescent(deadline time.Duration) bool {
 				ready = false
 				break
 			}
-			ids = append(ids, id)
+			live = append(live, t)
 		}
 		if ready {
 			states := goroutineStates()
+			lastStates = states
 			ok := true
-			for _, id := range ids {
-				st, present := states[id]
-				if present && !blockedState(st) {
-					ok = false
-					break
+			for _, t := range live {
+				st, present := states[t.goid]
+				if present && blockedState(st) {
+					continue
 				}
+				// absent from the dump: only a goroutine that has exited, and it sets fin before
+				t.mu.Lock()
+				fin := t.fin
+				t.mu.Unlock()
+				if !present && fin {
+					continue
+				}
+				ok = false
+				break
 			}
 			if ok {
 				return true
